@@ -313,6 +313,8 @@ def tla_module(tr, modname='EventCodesNFA'):
            'NStates == <<%s>>' % ', '.join(str(tr['nfas'][n].n) for n in names),
            'FinNoEnd == <<%s>>' % ', '.join('{%s}' % ', '.join(map(str, sorted(tr['nfas'][n].fin_noend))) for n in names),
            'FinEnd == <<%s>>' % ', '.join('{%s}' % ', '.join(map(str, sorted(tr['nfas'][n].fin_end))) for n in names),
+           'OtherClass == %d' % tr['other'],
+           'ClassRanges == <<%s>>' % ', '.join('<<%d, %d, %d>>' % r for r in class_ranges(tr)),
            '\\* Delta[p][q][c] = set of successor states of state q of pattern p on class c',
            'Delta == <<']
     pats = []
@@ -327,6 +329,22 @@ def tla_module(tr, modname='EventCodesNFA'):
     out.append('>>')
     out.append('====')
     return '\n'.join(out) + '\n'
+
+
+def class_ranges(tr):
+    out = []
+    for k, c in enumerate(tr['classes']):
+        if k + 1 == tr['other']:
+            continue
+        mem = sorted(c['members'])
+        lo = prev = mem[0]
+        for x in mem[1:]:
+            if x != prev + 1:
+                out.append((lo, prev, k + 1))
+                lo = x
+            prev = x
+        out.append((lo, prev, k + 1))
+    return sorted(out)
 
 
 def simulate(tr, name, classes_seq):
